@@ -47,9 +47,9 @@ def _mk_corpus():
                 add(sub + "/" + fn, {fn: rd(os.path.join(d, fn))}, fn, fn, args, ["pf", "pfe", "ig"])
     fx = common.FIX
     a, b, c = (rd(os.path.join(fx, "libs", x, x + ".h")) for x in "abc")
-    add("fix/rich.h", {"rich.h": rd(os.path.join(fx, "single/rich.h"))}, "rich.h", "rich.h", ["-D__cplusplus"], ["pf", "pfe", "ig", "igc", "igo"])
-    add("fix/slots.h", {"slots.h": rd(os.path.join(fx, "single/slots.h"))}, "slots.h", "slots.h", ["-D__cplusplus"], ["pf", "ig", "igc", "igo"])
-    add("fix/declined.h", {"declined.h": rd(os.path.join(fx, "single/declined.h"))}, "declined.h", "declined.h", ["-D__cplusplus"], ["pf", "ig", "igc", "igo"])
+    add("fix/rich.h", {"rich.h": rd(os.path.join(fx, "single/rich.h"))}, "rich.h", "rich.h", ["-D__cplusplus"], ["pf", "pfe", "ig", "igc", "igo", "ign"])
+    add("fix/slots.h", {"slots.h": rd(os.path.join(fx, "single/slots.h"))}, "slots.h", "slots.h", ["-D__cplusplus"], ["pf", "ig", "igc", "igo", "ign"])
+    add("fix/declined.h", {"declined.h": rd(os.path.join(fx, "single/declined.h"))}, "declined.h", "declined.h", ["-D__cplusplus"], ["pf", "ig", "igc", "igo", "ign"])
     add("fix/a.h", {"a.h": a}, "a.h", "a.h", ["-D__cplusplus"], ["pf", "ig"])
     add("fix/b.h:inc", {"a.h": a, "b.h": b}, "b.h", "a.h", ["-D__cplusplus"], ["pf", "ig"])
     add("fix/c.h", {"a.h": a, "b.h": b, "c.h": c}, "c.h", "c.h", ["-D__cplusplus"], ["pf", "ig"])
@@ -58,7 +58,7 @@ def _mk_corpus():
     add("corpus/scan1.h", {"scan1.h": s1}, "scan1.h", "scan1.h", ["-D__cplusplus"], ["pf", "pfe", "ig"])
     add("corpus/scan2.c", {"scan2.c": s2, "scan_inc.h": si}, "scan2.c", "scan2.c", [], ["pf", "pfe", "ig"])
     add("corpus/scan2.c:inc", {"scan2.c": s2, "scan_inc.h": si}, "scan2.c", "scan_inc.h", [], ["pf", "pfe", "ig"])
-    add("corpus/igate.h", {"igate.h": rd(os.path.join(cd, "igate.h"))}, "igate.h", "igate.h", ["-D__cplusplus"], ["pf", "ig", "igc", "igo"])
+    add("corpus/igate.h", {"igate.h": rd(os.path.join(cd, "igate.h"))}, "igate.h", "igate.h", ["-D__cplusplus"], ["pf", "ig", "igc", "igo", "ign"])
     # a seeded overload-heavy header of the generator the other scenarios use
     gen = common.big_header(20261002, 6).encode()
     add("gen/big.h", {"big.h": gen}, "big.h", "big.h", ["-D__cplusplus"], ["pf", "ig"])
@@ -70,7 +70,7 @@ def _mk_corpus():
     # reproducers of defects an audit of the unmodified tree found (DESIGN.md section 12): all backends, -promiscuous too
     ad = os.path.join(cd, "audit")
     for fn in sorted(os.listdir(ad)):
-        add("audit/" + fn, {fn: rd(os.path.join(ad, fn))}, fn, fn, ["-D__cplusplus"], ["pf", "ig", "igc", "igo"])
+        add("audit/" + fn, {fn: rd(os.path.join(ad, fn))}, fn, fn, ["-D__cplusplus"], ["pf", "ig", "igc", "igo", "ign"])
     nh, nn = rd(os.path.join(cd, "nfile.h")), rd(os.path.join(cd, "nfile.N"))
     add("corpus/nfile.N", {"nfile.h": nh, "nfile.N": nn}, "nfile.h", "nfile.N", ["-D__cplusplus"], ["ig"])
     add("corpus/nfile2.N", {"nfile.h": nh, "nfile.N": rd(os.path.join(cd, "nfile2.N"))}, "nfile.h", "nfile.N", ["-D__cplusplus"], ["ig"])
@@ -276,7 +276,7 @@ def _argv(ent, job, kind, root):
         return [build.tool(kind, "parse_file")] + ent["args"] + [pinc, "-Isrc"] + ["src/" + m for m in mains]
     if job == "pfe":
         return [build.tool(kind, "parse_file"), "-E"] + ent["args"] + [pinc, "-Isrc"] + ["src/" + m for m in mains]
-    backend = {"ig": ["-python-native"], "igc": ["-c", "-promiscuous"], "igo": ["-python-obj", "-promiscuous"]}[job]
+    backend = {"ig": ["-python-native"], "igc": ["-c", "-promiscuous"], "igo": ["-python-obj", "-promiscuous"], "ign": ["-python-native", "-promiscuous"]}[job]
     return [build.tool(kind, "interrogate"), "-oc", "out/x.cxx", "-od", "out/x.in", "-oh", "out/x.txt", "-module", "m", "-library", "libx"] + \
         backend + ent["args"] + [pinc, "-srcdir", "src"] + mains
 
